@@ -221,7 +221,11 @@ pub fn object_content(idx: usize, o: &Value) -> Vec<u8> {
     let seed = jopt_i(o, "seed", idx as i64) as u64;
     match o.get("content_hex").and_then(|x| x.as_str()) {
         Some(h) => (0..h.len() / 2).map(|i| u8::from_str_radix(&h[2 * i..2 * i + 2], 16).unwrap()).collect(),
-        None => gen_content(seed, clen),
+        // "fill": "low" -> compressible content (a short period), so that a content encoding shortens the transfer
+        None => match o.get("fill").and_then(|x| x.as_str()) {
+            Some("low") => (0..clen).map(|i| b"abcab"[(i + seed as usize) % 5]).collect(),
+            _ => gen_content(seed, clen),
+        },
     }
 }
 
